@@ -10,6 +10,9 @@
 //         L<h>:<hex text>:<len|->                        sqfvm_load_config
 //         K<h>:<calldata>:<hex type char>:<hex text>:<len|->   sqfvm_call (len '-' = size of the text; otherwise the given length is
 //                                                        passed and the buffer is padded with 'Z' up to it if longer than the text)
+//         W<k>~<op>                                       arm <op> (S.. / L.. / K.., without length field semantics: the text length is passed) to be
+//                                                        executed from INSIDE the log callback when the k-th record (from 0) of the NEXT op arrives;
+//                                                        the nested return value appears among the records as NEST=<ret>
 //         h: a handle number, or N (NULL), or B (a zeroed buffer), or X (a buffer starting with "SQFX")
 //       stdout: "<op result>|<op result>|..."   op result = <return value>{<callback record>,...}
 //         callback record = <user>:<calldata>:<severity>[:M<text>|:R<hex text>]
@@ -47,6 +50,7 @@
 #include <sys/syscall.h>
 #include <thread>
 #include <atomic>
+#include <functional>
 using namespace vh;
 
 #if defined(__SANITIZE_ADDRESS__) || defined(__SANITIZE_THREAD__)
@@ -63,15 +67,31 @@ typedef int32_t(*fn_status)(void*);
 typedef int32_t(*fn_call)(void*, void*, char, const char*, uint32_t);
 
 static std::string g_records;
+// W op of the api mode: an API call made from INSIDE the log callback, at the k-th record of the next op
+static long g_nest_at = -1;           // record index (of the op being executed) at which the nested op runs; -1 = not armed
+static long g_nest_seen = 0;
+static bool g_nest_running = false;
+static std::function<long()> g_nest_op;
+static void nest_hook()
+{
+    if (g_nest_at < 0 || g_nest_running) return;
+    if (g_nest_seen++ != g_nest_at) return;
+    g_nest_running = true;
+    long r = g_nest_op ? g_nest_op() : 0;
+    g_nest_running = false;
+    g_nest_at = -1;
+    if (!g_records.empty()) g_records += ",";
+    g_records += "NEST=" + std::to_string(r);
+}
 static void canon(std::string& t) { for (auto& ch : t) if (ch == '\t' || ch == '\n' || ch == '\r' || ch == '|' || ch == ',' || ch == '{' || ch == '}') ch = ' '; }
 static void on_log(void* user, void* call, int32_t sev, const char* msg, uint32_t len)
 {
     std::string text(msg ? msg : "", msg ? len : 0);
     if (!g_records.empty()) g_records += ",";
     g_records += std::to_string((long)(intptr_t)user) + ":" + std::to_string((long)(intptr_t)call) + ":" + std::to_string(sev);
-    if (sev == -1) { g_records += ":R" + hex(text); return; }
+    if (sev == -1) { g_records += ":R" + hex(text); nest_hook(); return; }
     auto p = text.find("[DIAG_LOG] ");
-    if (p != std::string::npos) { std::string t = text.substr(p + 11); canon(t); g_records += ":M<" + t + ">"; return; }
+    if (p != std::string::npos) { std::string t = text.substr(p + 11); canon(t); g_records += ":M<" + t + ">"; nest_hook(); return; }
     const std::string a = "Context dropped with return value `";
     p = text.find(a);
     auto e = text.rfind("`.");
@@ -80,6 +100,7 @@ static void on_log(void* user, void* call, int32_t sev, const char* msg, uint32_
         std::string t = text.substr(p + a.size(), e - p - a.size()); canon(t);
         g_records += ":M<VALUE " + t + ">";
     }
+    nest_hook();
 }
 
 struct Lib
@@ -301,10 +322,34 @@ int main(int argc, char** argv)
                     if (op.empty()) continue;
                     auto a = split(op.substr(1), ':');
                     g_records.clear();
+                    if (op[0] != 'W') g_nest_seen = 0;
                     long ret = 0;
                     alarm(20);
                     switch (op[0])
                     {
+                    case 'W':
+                    {   // W<k>~<op>: arm <op> (S / L / K, same syntax) to be executed inside the callback at the k-th record of the NEXT op
+                        auto tpos = op.find('~');
+                        if (tpos == std::string::npos) return "BADOP";
+                        long at = std::stol(op.substr(1, tpos - 1));
+                        std::string inner = op.substr(tpos + 1);
+                        auto ia = split(inner.substr(1), ':');
+                        char ik = inner[0];
+                        g_nest_op = [&lib, &handle, ia, ik]() -> long {
+                            if (ik == 'S') return lib.status(handle(ia[0]));
+                            size_t ti = ik == 'L' ? 1 : 3;
+                            std::string text = unhex(ia[ti]);
+                            std::string buf = text; buf.push_back('\0');
+                            if (ik == 'L') return lib.load(handle(ia[0]), buf.data(), (uint32_t)text.size());
+                            std::string ty = unhex(ia[2]);
+                            return lib.call(handle(ia[0]), (void*)(intptr_t)std::stol(ia[1]), ty.empty() ? '\0' : ty[0], buf.data(), (uint32_t)text.size());
+                        };
+                        g_nest_seen = 0; g_nest_at = at; ret = 0;
+                        alarm(0);
+                        if (k > 1) o += "|";
+                        o += "0{}";
+                        continue;
+                    }
                     case 'C': handles.push_back(lib.create((void*)(intptr_t)std::stol(a[0]), on_log, (float)std::stol(a[1]) / 1000.0f)); ret = handles.back() ? (long)handles.size() - 1 : -1; break;
                     case 'D': lib.destroy(handle(a[0])); ret = 0; break;
                     case 'S': ret = lib.status(handle(a[0])); break;
@@ -327,6 +372,7 @@ int main(int argc, char** argv)
                     default: return "BADOP";
                     }
                     alarm(0);
+                    g_nest_at = -1;
                     if (k > 1) o += "|";
                     o += std::to_string(ret) + "{" + g_records + "}";
                 }
